@@ -36,9 +36,9 @@ CFG = {
                   "correspondence run through real Window values on a real Vaxis (fake console), now including Window.ShowCursor. "
                   "The oracle also observes the text helpers through the reference terminal's reading (continuation columns of wide "
                   "clusters): F111 (Print/Wrap put a cluster wider than the rest of the window's row on its last column; it was displayed beyond the window) is FIXED in /repo 05ee32f "
-                  "(Witness/F111.lean keeps the old loop and shows both behaviours). Known findings: F111b (a struct-literal child reaching beyond its parent's right edge accepts a wide cluster on the parent's last column — "
-                  "hypothesis rightNested of text_extent_clip, shown necessary; left to the application as window.go documents) and F111c (Wrap's line segmentation can end inside a grapheme cluster: a flag that begins a later "
-                  "Segment, space + combining mark; new oracle 'clusters of the line segments = clusters of the Segment text'). Validated by correspondence only: that the Lean transcription of the loops equals the Go loops "
+                  "(Witness/F111.lean keeps the old loop and shows both behaviours). Known finding: F111b (a struct-literal child reaching beyond its parent's right edge accepts a wide cluster on the parent's last column — "
+                  "hypothesis rightNested of text_extent_clip, shown necessary; left to the application as window.go documents) . F111c (Wrap's line segmentation could end inside a grapheme cluster: a flag that begins a later "
+                  "Segment, space + combining mark) is FIXED in /repo 1f9a9ad; oracle 'clusters of the line segments = clusters of the Segment text' (the line segments are a parameter of the model, computed by the harness with Wrap's own loop). Validated by correspondence only: that the Lean transcription of the loops equals the Go loops "
                   "beyond their pinned statement structure. The spill oracle covers the four text helpers and SetCell/Fill (F111b is the general form: SetCell looks at the cell's column only).",
     "technique": "Lean 4 proof (induction on the parent chain / on the text) + extractor + differential correspondence",
     "timeout": 900,
